@@ -1,5 +1,6 @@
 import TextxVerif.Wire
 import TextxVerif.Export
+import TextxVerif.ExportCall
 /-! Driver for the export models (C29).
 ops:
   {"op":"escape","s":str}                  → {"esc":str,"repr":str,"html":str}
@@ -8,6 +9,11 @@ ops:
                                             → {"text":str|null} + recognise(text given)
   {"op":"mm","classes":[Cls],"base":[str],"renderer":"dot"|"puml","linetype":str|null,"text":str}
                                             → {"text":str|null} + recognise / puml(text given)
+  {"op":"export","objs":[Obj],"args":{"model":id|null,"repo":null|[MRef],"own":null|[MRef]},"text":str|null}
+                                            → {"raises":bool,"roots":[Root]|null,"text":str|null,"domain":bool} + recognise(text given)
+                                              (the whole call `model_export_to_file(f, model, repo)`: argument check, choice of the
+                                               exported models, export)
+MRef = {"fname":str,"kids":[id…],"id":id}
 Obj  = {"id":n,"cls":str,"attrs":null|[{"name":str,"cont":bool,"req":bool,"val":Val}]}
 Val  = null | {"p":ty,"v":str} | {"o":id} | [Item]      Item = null | {"p":ty,"v":str} | {"o":id}
 Root = ["plain",id] | ["sub",fname,[id…],id]
@@ -95,6 +101,27 @@ def parseRoot (j : Json) : Option Root := do
     pure (.sub f.toList ks i)
   | _ => none
 
+def parseMRef (j : Json) : Option MRef := do
+  pure { fname := (← getStr? j "fname").toList, kids := ← getNatList? j "kids", id := ← getNat? j "id" }
+
+/-- `null` → `none`, an array → the models -/
+def parseRepo (j : Json) : Option (Option (List MRef)) :=
+  if j.isNull then some none
+  else match asArr? j with
+    | some xs => (xs.toList.mapM parseMRef).map some
+    | none => none
+
+def parseArgs (j : Json) : Option Args := do
+  let m ← getObj? j "model"
+  let model ← if m.isNull then pure none else (asNat? m).map some
+  let repo ← parseRepo (← getObj? j "repo")
+  let own ← parseRepo (← getObj? j "own")
+  pure { model, repo, own }
+
+def rootJ : Root → Json
+  | .plain i => Json.arr #["plain", toJson i]
+  | .sub f ks i => Json.arr #["sub", S f, toJson ks, toJson i]
+
 def parseTyp : String → Option Typ
   | "common" => some .common
   | "abstract" => some .abstract
@@ -134,6 +161,19 @@ def handle (j : Json) : Json :=
     | some objs, some roots, some t =>
       Json.mkObj (("text", optS (exportModel objs roots)) :: ("domain", toJson (heapOkB objs && closedB objs roots))
         :: recJ t.toList)
+    | _, _, _ => badOp
+  | some "export" =>
+    match (getArr? j "objs").bind (·.toList.mapM parseObj), (getObj? j "args").bind parseArgs, getObj? j "text" with
+    | some objs, some args, some t =>
+      match planArgs args with
+      | none => Json.mkObj [("raises", true), ("roots", Json.null), ("text", Json.null), ("domain", true)]
+      | some roots =>
+        match (if t.isNull then some [] else (asStr? t).map String.toList) with
+        | some tl =>
+          Json.mkObj (("raises", false) :: ("roots", Json.arr (roots.map rootJ).toArray)
+            :: ("text", optS (exportCall objs args)) :: ("domain", toJson (heapOkB objs && closedB objs roots))
+            :: recJ tl)
+        | none => badOp
     | _, _, _ => badOp
   | some "mm" =>
     match (getArr? j "classes").bind (·.toList.mapM parseMCls), getStrList? j "base", getStr? j "renderer",
